@@ -199,18 +199,20 @@ class Dataset(AbstractDataset, dict, OpMixin, GetSetDelAttrMixin):
         val._axes = copy.deepcopy(val.axes)
 
         # Check dimensions
-        # make sure axes match those of the dataset
-        for i, newaxis in enumerate(val.axes):
-
-            # Check dimensions if already existing axis
+        # make sure axes match those of the dataset (before anything is modified:
+        # a rejected assignment must leave the dataset as it was)
+        for newaxis in val.axes:
             if newaxis.name in [ax.name for ax in self.axes]:
                 existing_axis = self.axes[newaxis.name]
                 if not newaxis == existing_axis:
                     raise ValueError("axes values do not match, align data first.\
                             \nDataset: {}, \nGot: {}".format(existing_axis, newaxis))
 
-                # assign the Dataset axis : they all must share the same axis
-                val.axes[i] = existing_axis
+        for i, newaxis in enumerate(val.axes):
+
+            # assign the Dataset axis : they all must share the same axis
+            if newaxis.name in [ax.name for ax in self.axes]:
+                val.axes[i] = self.axes[newaxis.name]
 
             # Append new axis
             else:
